@@ -2,6 +2,7 @@
 import OtterVerif.Impl.Sketch
 import OtterVerif.Impl.Wheel
 import OtterVerif.Impl.Mpsc
+import OtterVerif.Impl.Policy
 
 namespace Driver.Units
 open OtterVerif
@@ -211,6 +212,85 @@ def cmStep (st : CmSt) (line : String) (t : Tally) : Except String (CmSt × Tall
   | ["end"] => .ok (st, t)
   | _ => .error "unknown line"
 
+/-! ### policy -/
+
+def plStep (p : Impl.Policy.Policy) (line : String) (t : Tally) : Except String (Impl.Policy.Policy × Tally) :=
+  let ws := splitWs line
+  let (toks, res) := (ws.takeWhile (· ≠ "=>"), (ws.dropWhile (· ≠ "=>")).drop 1)
+  match toks with
+  | ["hash", k, h] => .ok ({ p with nextHashes := (k.toNat!, BitVec.ofNat 64 h.toNat!) :: p.nextHashes.filter (·.1 != k.toNat!) }, t)
+  | ["new", wtok] => .ok ({ isWeighted := wtok == "weighted=true" }, t)
+  | "live" :: rest =>
+    -- C04/C05 audit of the policy bookkeeping (the state is the implementation's: the model reproduced its dump)
+    let live := ((rest.headD "").splitOn ",").filterMap (·.toNat?)
+    let linked := p.window ++ p.probation ++ p.prot
+    let sumW (l : List Nat) := (l.map (fun id => (p.node id).weight)).foldl (· + ·) 0
+    let dup := linked.eraseDups.length != linked.length
+    let badQt := (p.window.any (fun id => (p.node id).qt != 0)) || (p.probation.any (fun id => (p.node id).qt != 1)) || (p.prot.any (fun id => (p.node id).qt != 2))
+    let deadLinked := linked.filter (fun id => (p.node id).st == .dead)
+    let missing := live.filter (fun id => !linked.contains id)
+    let extra := linked.filter (fun id => !live.contains id)
+    let t := t.bump "audits"
+    if dup then .error s!"C05: a node is linked twice in the policy deques: {linked}"
+    else if badQt then .error "C05: a node's queue type disagrees with the deque that links it"
+    else if !deadLinked.isEmpty then .error s!"C05: removed (dead) nodes {deadLinked} are still tracked by the eviction policy"
+    else if !missing.isEmpty then .error s!"C05: entries present in the table are unknown to the eviction policy (in no deque): nodes {missing}"
+    else if !extra.isEmpty then .error s!"C05: nodes {extra} are tracked by the eviction policy but no longer mapped by the table"
+    else if p.weightedSize.toNat != sumW linked then .error s!"C05: weightedSize = {p.weightedSize.toNat} but the linked nodes weigh {sumW linked}"
+    else if p.windowWeightedSize.toNat != sumW p.window then .error s!"C05: windowWeightedSize = {p.windowWeightedSize.toNat} but the window weighs {sumW p.window}"
+    else if p.mainProtectedWeightedSize.toNat != sumW p.prot then .error s!"C05: mainProtectedWeightedSize = {p.mainProtectedWeightedSize.toNat} but the protected queue weighs {sumW p.prot}"
+    else if p.lastWasEvict && p.weightedSize.toNat > p.maximum.toNat && linked.any (fun id => (p.node id).weight != 0) then
+      .error s!"C04: after evictNodes the weighted size {p.weightedSize.toNat} still exceeds the maximum {p.maximum.toNat} although evictable entries remain"
+    else .ok (p, t)
+  | _ =>
+    -- random draws consumed by this call are reported at the end of the line
+    let randsTok := ((res.getLast?.getD "").drop 6).toString
+    let rands := (randsTok.splitOn ",").filterMap (·.toNat?)
+    let p0 := { p with rands := rands, evicted := [] }
+    let mk (id key w : Nat) (st : Impl.Policy.NState) (p : Impl.Policy.Policy) := p.setNode { id := id, key := key, weight := w, st := st }
+    let retire (id : Nat) (p : Impl.Policy.Policy) := let n := p.node id; if n.st == .alive then p.setNode { n with st := .retired } else p
+    let r : Except String (Impl.Policy.Policy × String) := match toks with
+      | ["setmax", m] => .ok (Impl.Policy.setMaximumSize p0 (BitVec.ofNat 64 m.toNat!), "setmax")
+      | ["add", id, k, w] => .ok (Impl.Policy.add (mk id.toNat! k.toNat! w.toNat! .alive p0) id.toNat!, "add")
+      | ["addretired", id, k, w] => .ok (Impl.Policy.add (mk id.toNat! k.toNat! w.toNat! .retired p0) id.toNat!, "add_out_of_order")
+      | ["update", id, old, k, w] =>
+          let unlinked := (Impl.Policy.linkedIn p0 old.toNat!).isNone
+          .ok (Impl.Policy.update (mk id.toNat! k.toNat! w.toNat! .alive (retire old.toNat! p0)) id.toNat! old.toNat!,
+               if unlinked then "update_old_unlinked" else "update")
+      | ["delete", id] => .ok (Impl.Policy.delete (retire id.toNat! p0) id.toNat!, "delete")
+      | ["access", id] => .ok (Impl.Policy.access p0 id.toNat!, "access")
+      | ["evict"] => .ok (Impl.Policy.evictNodes p0, "evictNodes")
+      | ["climb"] => .ok (Impl.Policy.climb p0, "climb")
+      | _ => .error "unknown line"
+    match r with
+    | .error e => .error e
+    | .ok (p', what) =>
+      let got := Impl.Policy.dump p' ++ " rands=" ++ randsTok
+      let want := " ".intercalate res
+      let t := (t.bump what).bump "evictions" p'.evicted.length
+      let t := if rands.length > 0 then t.bump "jitter_draws" rands.length else t
+      if !p'.rands.isEmpty then .error s!"{what}: the implementation drew {rands.length} random numbers, the model consumed {rands.length - p'.rands.length}"
+      else if got != want then .error s!"{what} {toks}: implementation {want}, model {got}"
+      else .ok ({ p' with reseeded := false, lastWasEvict := what == "evictNodes" }, t)
+
+/-! ### conc-policy: quiescent audit of table vs eviction policy (C04/C05) -/
+
+def cpStep (_st : Unit) (line : String) (t : Tally) : Except String (Unit × Tally) :=
+  let ws := splitWs line
+  match ws with
+  | "audit" :: rest =>
+    let g := natOf rest
+    let t := (t.bump "audits").bump "entries" (g "table")
+    if g "unlinked" != 0 then .error s!"C05: {g "unlinked"} of {g "table"} entries present in the table are unknown to the eviction policy (linked in no deque)"
+    else if g "deadlinked" != 0 then .error s!"C05: {g "deadlinked"} removed entries are still tracked by the eviction policy"
+    else if g "dup" != 0 then .error s!"C05: {g "dup"} nodes are linked more than once"
+    else if g "linked" != g "table" then .error s!"C05: the eviction policy tracks {g "linked"} nodes, the table holds {g "table"}"
+    else if g "ws" != g "sumtable" then .error s!"C05: weightedSize = {g "ws"} but the entries present weigh {g "sumtable"}"
+    else if g "coldest" != g "all" then .error s!"C05: Coldest enumerates {g "coldest"} entries, All {g "all"}"
+    else if g "sumtable" > g "max" then .error s!"C04: at quiescence after CleanUp the entries weigh {g "sumtable"}, maximum {g "max"}"
+    else .ok ((), t)
+  | _ => .error "unknown line"
+
 /-- generic script loop: `step` per line, first failure of a script is reported, rest of the script skipped -/
 partial def loop {σ : Type} (h : IO.FS.Stream) (init : σ) (step : σ → String → Tally → Except String (σ × Tally))
     (st : σ) (script : String) (lineNo : Nat) (skipping : Bool) (t : Tally) : IO Unit := do
@@ -233,8 +313,10 @@ partial def loop {σ : Type} (h : IO.FS.Stream) (init : σ) (step : σ → Strin
 def dispatch (cmd : String) (_args : List String) (h : IO.FS.Stream) : IO UInt32 := do
   match cmd with
   | "sketch" => loop h ({} : SkSt) skStep {} "" 0 false {}; return 0
+  | "concpolicy" => loop h () cpStep () "" 0 false {}; return 0
   | "concmpsc" => loop h ({} : CmSt) cmStep {} "" 0 false {}; return 0
   | "concdrain" => loop h () cdStep () "" 0 false {}; return 0
+  | "policy" => loop h ({} : Impl.Policy.Policy) plStep {} "" 0 false {}; return 0
   | "mpsc" => loop h ({} : MqSt) mqStep {} "" 0 false {}; return 0
   | "wheel" => loop h ({} : Impl.Wheel.Wheel) whStep {} "" 0 false {}; return 0
   | _ =>
